@@ -1337,6 +1337,38 @@ do_udp(char **tok)
 	nng_socket_close(s);
 }
 
+// a well-behaved WebSocket client: upgrade with the SP sub-protocol, one masked
+// binary frame "ok"; 1 = the socket received it
+static int
+ws_control(nng_socket s, struct sockaddr_in *sa, int port)
+{
+	int      fd2 = socket(AF_INET, SOCK_STREAM, 0), ok = 0, one = 1;
+	uint8_t  head[4096];
+	size_t   tot = 0, rl;
+	nng_msg *m;
+	setsockopt(fd2, IPPROTO_TCP, TCP_NODELAY, &one, sizeof(one));
+	if (connect(fd2, (struct sockaddr *) sa, sizeof(*sa)) == 0) {
+		int n = snprintf((char *) head, sizeof(head),
+		    "GET / HTTP/1.1\r\nHost: 127.0.0.1:%d\r\nUpgrade: websocket\r\n"
+		    "Connection: Upgrade\r\nSec-WebSocket-Key: dGhlIHNhbXBsZSBub25jZQ==\r\n"
+		    "Sec-WebSocket-Protocol: pair.sp.nanomsg.org\r\nSec-WebSocket-Version: 13\r\n\r\n",
+		    port);
+		raw_write_all(fd2, head, (size_t) n);
+		if ((rl = raw_read_head(fd2, head, sizeof(head) - 1, &tot)) != 0 &&
+		    strncmp((char *) head + 9, "101", 3) == 0) {
+			uint8_t fr[] = { 0x82, 0x82, 1, 2, 3, 4, 'o' ^ 1, 'k' ^ 2 };
+			raw_write_all(fd2, fr, sizeof(fr));
+			nng_socket_set_ms(s, NNG_OPT_RECVTIMEO, 2000);
+			if (nng_recvmsg(s, &m, 0) == 0) {
+				ok = nng_msg_len(m) == 2 && memcmp(nng_msg_body(m), "ok", 2) == 0;
+				nng_msg_free(m);
+			}
+		}
+	}
+	close(fd2);
+	return ok;
+}
+
 // wshs <headhex> <cuts> <flags>
 // an nng pair0 socket listening on ws://; the raw peer sends arbitrary bytes
 // where the HTTP upgrade request belongs (flags: c = half-close afterwards),
@@ -1380,38 +1412,112 @@ do_wshs(char **tok)
 		if (r >= 12) printf("diag status=%.3s\n", (char *) in + 9);
 		else printf("diag status=none r=%zd\n", r);
 	}
-	// the control connection
-	{
-		int      fd2 = socket(AF_INET, SOCK_STREAM, 0), ok = 0;
-		uint8_t  head[4096];
-		size_t   tot = 0, rl;
-		nng_msg *m;
-		setsockopt(fd2, IPPROTO_TCP, TCP_NODELAY, &one, sizeof(one));
-		if (connect(fd2, (struct sockaddr *) &sa, sizeof(sa)) == 0) {
-			int n = snprintf((char *) head, sizeof(head),
-			    "GET / HTTP/1.1\r\nHost: 127.0.0.1:%d\r\nUpgrade: websocket\r\n"
-			    "Connection: Upgrade\r\nSec-WebSocket-Key: dGhlIHNhbXBsZSBub25jZQ==\r\n"
-			    "Sec-WebSocket-Protocol: pair.sp.nanomsg.org\r\nSec-WebSocket-Version: 13\r\n\r\n",
-			    port);
-			raw_write_all(fd2, head, (size_t) n);
-			if ((rl = raw_read_head(fd2, head, sizeof(head) - 1, &tot)) != 0 &&
-			    strncmp((char *) head + 9, "101", 3) == 0) {
-				// one masked binary frame "ok"
-				uint8_t fr[] = { 0x82, 0x82, 1, 2, 3, 4, 'o' ^ 1, 'k' ^ 2 };
-				raw_write_all(fd2, fr, sizeof(fr));
-				if (nng_recvmsg(s, &m, 0) == 0) {
-					ok = nng_msg_len(m) == 2 && memcmp(nng_msg_body(m), "ok", 2) == 0;
-					nng_msg_free(m);
-				}
-			}
-		}
-		printf("ctl ok=%d\n", ok);
-		close(fd2);
-	}
+	printf("ctl ok=%d\n", ws_control(s, &sa, port));
 	printf("diag cpu_ms=%.0f\n", cpu_ms() - cpu0);
 	if (fd >= 0) close(fd);
 	nng_socket_close(s);
 	free(h);
+}
+
+// ------------------------------------------------ stalled handshake (H4 clock)
+extern void nng_verif_clock_advance(uint64_t);
+
+// stall <tran> <proto> <partialhex> <advance_ms> <ctlhex> <self> <peer>
+// tran: tcp | ipc | sfd | ws (nng listens).  A raw peer connects, sends only
+// <partialhex> of its handshake and stays silent; the virtual clock is advanced
+// by <advance_ms> (the 10 s negotiation timeout / the 2 s HTTP timeout costs no
+// real time); then a well-behaved connection must be served.
+static void
+do_stall(char **tok)
+{
+	const char *tran = tok[1], *proto = tok[2];
+	size_t      pl, cl;
+	uint8_t    *part = unhex(tok[3], &pl);
+	uint64_t    adv  = strtoull(tok[4], NULL, 10);
+	uint8_t    *ctl  = unhex(tok[5], &cl);
+	unsigned    peer = (unsigned) atoi(tok[7]);
+	double      cpu0 = cpu_ms();
+	int         rv;
+
+	if (strcmp(tran, "ws") == 0) {
+		nng_socket   s;
+		nng_listener l;
+		int          port = 0, one = 1;
+		if ((rv = nng_pair0_open(&s)) != 0 || (rv = nng_listener_create(&l, s, "ws://127.0.0.1:0/")) != 0 ||
+		    (rv = nng_listener_start(l, 0)) != 0 || (rv = nng_listener_get_int(l, NNG_OPT_BOUND_PORT, &port)) != 0) {
+			printf("fail listen rv=%d\n", rv);
+			goto out;
+		}
+		struct sockaddr_in sa = { .sin_family = AF_INET, .sin_port = htons((uint16_t) port) };
+		sa.sin_addr.s_addr    = htonl(INADDR_LOOPBACK);
+		int fd                = socket(AF_INET, SOCK_STREAM, 0);
+		setsockopt(fd, IPPROTO_TCP, TCP_NODELAY, &one, sizeof(one));
+		if (connect(fd, (struct sockaddr *) &sa, sizeof(sa)) != 0) {
+			printf("fail connect\n");
+		} else {
+			raw_write_all(fd, part, pl);
+			usleep(30000);
+			nng_verif_clock_advance(adv);
+			size_t extra = 0;
+			printf("diag stall closed=%d\n", raw_wait_closed(fd, 300, &extra));
+		}
+		printf("ctl ok=%d\n", ws_control(s, &sa, port));
+		printf("diag cpu_ms=%.0f\n", cpu_ms() - cpu0);
+		close(fd);
+		nng_socket_close(s);
+		goto out;
+	}
+	{
+		sess x;
+		if ((rv = open_proto(proto, &x.c.sock)) != 0) {
+			printf("fail open rv=%d\n", rv);
+			goto out;
+		}
+		if ((rv = sess_attach(&x, tran, 'l')) != 0) {
+			printf("fail attach rv=%d\n", rv);
+			conn_close(&x.c);
+			goto out;
+		}
+		raw_write_all(x.c.fd, part, pl);
+		usleep(30000); // let nng read what there is and wait for the rest
+		nng_verif_clock_advance(adv);
+		size_t extra = 0;
+		printf("stall closed=%d\n", raw_wait_closed(x.c.fd, 400, &extra));
+		// the well-behaved connection
+		int     fd2 = -1, ok = 0, negok = 0;
+		uint8_t hdr[8] = { 0, 'S', 'P', 0, (uint8_t) (peer >> 8), (uint8_t) peer, 0, 0 };
+		for (int attempt = 0; attempt < 3 && fd2 < 0; attempt++) {
+			fd2 = sess_second(&x);
+			if (fd2 < 0) usleep(100000);
+		}
+		if (fd2 >= 0) {
+			uint8_t in[8];
+			raw_write_all(fd2, hdr, 8);
+			negok = raw_read_n(fd2, in, 8, 2500) == 8;
+			if (negok) {
+				uint8_t fr[9 + 8];
+				size_t  hl = 0;
+				if (strcmp(tran, "ipc") == 0) fr[hl++] = 1;
+				for (int i = 7; i >= 0; i--) fr[hl++] = (uint8_t) (((uint64_t) cl) >> (8 * i));
+				raw_write_all(fd2, fr, hl);
+				raw_write_all(fd2, ctl, cl);
+				nng_socket_set_ms(x.c.sock, NNG_OPT_RECVTIMEO, 2500);
+				nng_msg *m;
+				if (nng_recvmsg(x.c.sock, &m, 0) == 0) {
+					ok = 1;
+					nng_msg_free(m);
+				}
+			}
+			close(fd2);
+		}
+		printf("ctl ok=%d\n", ok);
+		if (!ok) printf("diag ctl fd=%d negok=%d\n", fd2, negok);
+		printf("diag cpu_ms=%.0f\n", cpu_ms() - cpu0);
+		conn_close(&x.c);
+	}
+out:
+	free(part);
+	free(ctl);
 }
 
 int
@@ -1451,6 +1557,8 @@ main(int argc, char **argv)
 			do_inproc(tok);
 		} else if (strcmp(op, "sess") == 0 && nt >= 12) {
 			do_sess(tok);
+		} else if (strcmp(op, "stall") == 0 && nt >= 8) {
+			do_stall(tok);
 		} else if (strcmp(op, "wshs") == 0 && nt >= 4) {
 			do_wshs(tok);
 		} else if (strcmp(op, "udp") == 0 && nt >= 4) {
